@@ -60,14 +60,22 @@ RULE = ("cells = solver family x (problem shape, storage, shift, start vector, p
         "on fresh, equal objects passes is reported as reused-arguments|after=<first solver> resp. solve-called-twice.  LM: all "
         "ordered pairs of the documented (sparse, Jacobian) configurations on one start object + solve twice; wrappers: all ordered "
         "pairs over {L_BFGS_B without / with bounds, minimize L-BFGS-B with bounds, minimize BFGS, maximize BFGS} on one start object "
-        "and one bounds ndarray + solve twice, reference = direct SciPy call on pristine equal objects.  A cell is non-trivial when the solver stopped "
+        "and one bounds ndarray + solve twice, reference = direct SciPy call on pristine equal objects.  PASS-THROUGH KEYWORD facet (minimize / maximize): "
+        "the default method=None - SciPy's OWN rule 'constraints -> SLSQP, bounds -> L-BFGS-B, else BFGS' must decide, the wrapper adds no rule of its own - "
+        "crossed with every keyword that rule looks at, alone and combined: {tol, options, bounds (active box), linear equality constraint, linear "
+        "inequality constraint, box + equality, box + inequality} x tol {default, 1e-10} x gradient given / None (constraint Jacobian given / None); judged "
+        "(a) field by field against scipy.optimize.minimize called directly with equal arguments and (b) independently of SciPy: the objective is strictly "
+        "convex, so the returned point must be THE KKT point of the problem the keywords describe (feasible; gradient in the cone of the active constraint "
+        "normals, multipliers by NNLS) - signature <wrapper>|kkt|kwargs=<keywords>; the bounds list handed over is snapshot.  A cell is non-trivial when the solver stopped "
         "by its own convergence test (before maxit) or, for prox cells, when the lattice has points on both sides of every bound")
 BOUND = {
     "quick": "CGLS: 3 shapes (6x4,5x5,3x5) x dense/sparse x shift{0,.5} x 4 starts x {matrix,function}; PCGLS: same x "
              "P{I,diag,tridiag SPD,lower bidiagonal} x {explicit inverse, solve} ; FISTA/ISTA: 3 shapes x 7 regularisers (L1 x3, nonneg, box x3) "
              "x step{.5/L,.99/L} (+sparse and second start for 6x4), n<=5 so all 3^n active sets are enumerated; "
              "LM: 3 problems x 4 (sparse flag, Jacobian type) x 2 starts x gradtol {1e-9, 1e-15 (below round-off)} + matrix form; wrappers: L_BFGS_B 8 configs, minimize 10 methods "
-             "x grad/no grad x ndarray/CUQIarray, maximize, LS 3 methods x 2 losses x jac/None; "
+             "x grad/no grad x ndarray/CUQIarray, maximize, LS 3 methods x 2 losses x jac/None; minimize+maximize with method=None x 12 pass-through "
+             "keyword sets {tol, options(maxiter=2), bounds, bounds+tol, (eq | ineq) x (alone | with bounds) x (default tol | tol=1e-10)} x grad/no grad "
+             "(n=3, box [-0.25,0.5]^3, constraint a.x = d resp. a.x >= d with d = half the maximum of a.x over the box); "
              "projections/prox: d=1 (33-pt lattice), d=2 (13^2), d=3 (7^3): all inputs x all competitors; "
              "start representation {int64, float32, list, CUQIarray} x start point {zero, ints (+far for non-integer reps; "
              "dyadic for wrappers)}: CGLS 3 shapes x shift{0,.5} x both forms, PCGLS same x P=lower bidiagonal x {explicit inverse, "
@@ -112,6 +120,11 @@ ASSUMPTIONS = [
     "values outside the catalogue (ill-conditioned or rank-deficient A, steps above 1/L, non-convex regularisers) are not covered",
     "wrappers: the reference is the direct SciPy call with the same arguments in the same process (SciPy is deterministic)",
     "for maximize the info fields may carry either sign (the statement says 'unchanged apart from sign')",
+    "pass-through keyword cells: 'SciPy's result unchanged' is read as: every keyword the caller gives reaches scipy.optimize.minimize and, with "
+    "method=None, SciPy's default method rule applies; SciPy's warnings about keywords a method does not use are suppressed on both sides; the KKT "
+    "oracle is demanded only when SciPy's direct call reports success, at 5e-3 (1 + ||grad f(0)||) with SciPy's default tolerances and 1e-4 (1 + "
+    "||grad f(0)||) with tol=1e-10 (SLSQP's tol is a tolerance on f, observed residuals 1.5e-4 resp. 1.6e-6 relative); a coordinate counts as at a "
+    "bound / the inequality as active within 1e-5; constraints are linear and one at a time, the objective is the strictly convex catalogue quartic",
     "start representation: every ndarray (integer dtype, float32, CUQIarray) is taken as a start vector the statement quantifies "
     "over - raising for it is a violation; plain lists may be refused (documented type: ndarray) but if accepted the result is "
     "judged like any other.  All start values of this facet are exactly representable in every representation, so the "
@@ -176,6 +189,10 @@ BOXES_T = ["default", "scalar", "vector", "lower-only", "upper-only", "degenerat
 L1_Q = [0.25, 1.0, 4.0]
 L1_T = [0.0, 0.25, 1.0, 4.0]
 MIN_METHODS = [None, "Nelder-Mead", "Powell", "CG", "BFGS", "L-BFGS-B", "TNC", "COBYLA", "SLSQP", "trust-constr"]
+# pass-through keyword facet of minimize / maximize with the DEFAULT method=None: SciPy's default rule is "constraints -> SLSQP,
+# bounds -> L-BFGS-B, else BFGS", so the alphabet is every keyword that rule looks at (alone and combined) + tol / options
+MIN_KWARGS = (["tol", "options", "bounds", "bounds,tol"]
+              + [b + c + t for c in ("eq", "ineq") for b in ("", "bounds,") for t in ("", ",tol")])
 MIN_METHODS_REP_Q = [None, "Nelder-Mead", "L-BFGS-B", "TNC", "SLSQP"]
 # representation of the start vector (facet "rep"): the same start POINT handed over as ...
 REPS_Q = ["int64", "float32", "list", "CUQIarray"]
@@ -257,6 +274,11 @@ def cells(tier, seed):
                 for which in ("minimize", "maximize"):
                     out.append({"kind": "minimize", "which": which, "method": method, "grad": grad, "x0type": x0type,
                                 "n": 2 if method in ("Nelder-Mead", "Powell", "COBYLA") else 3, "cat": k})
+    # pass-through keyword facet: method=None (SciPy's OWN default rule decides) x every keyword that rule depends on
+    for kw in MIN_KWARGS:
+        for grad in (True, False):
+            for which in ("minimize", "maximize"):
+                out.append({"kind": "minimize", "which": which, "method": None, "grad": grad, "x0type": "ndarray", "kw": kw, "n": 3, "cat": k})
     for method in ("trf", "dogbox", "lm"):
         for loss in ("linear", "soft_l1"):
             for jac in (True, False):
@@ -1877,6 +1899,89 @@ def _eval_lbfgsb(cell, res):
     res.sample = {"x": x, "scipy_x": ref[0], "warnflag": d["warnflag"]}
 
 
+class _quiet:
+    """SciPy warns (RuntimeWarning / OptimizeWarning) about keywords a method does not use; the verdict is on the returned values."""
+
+    def __enter__(self):
+        import warnings
+        self._c = warnings.catch_warnings()
+        self._c.__enter__()
+        warnings.simplefilter("ignore")
+
+    def __exit__(self, *a):
+        return self._c.__exit__(*a)
+
+
+def _min_kwargs(name, n, k, with_jac):
+    """Fresh keyword objects for scipy.optimize.minimize / the wrappers + the data of the KKT oracle (None when unconstrained).
+    Box [-0.25, 0.5]^n (active at the unconstrained minimiser of the catalogue objective); linear constraint a.x = d resp.
+    a.x >= d with d = half the maximum of a.x over the box, so the constraint is feasible with and without the box."""
+    parts = name.split(",")
+    lo, up = -0.25, 0.5
+    a = np.asarray(refs.dyadic_vec(n, k + 5), float)
+    if not np.any(a):
+        a = np.ones(n)
+    d = 0.5 * float(np.sum(np.where(a > 0, a * up, a * lo)))
+    kw, kkt = {}, {}
+    if "tol" in parts:
+        kw["tol"] = 1e-10
+    if "options" in parts:
+        kw["options"] = {"maxiter": 2}
+    if "bounds" in parts:
+        kw["bounds"] = [(lo, up)] * n
+        kkt["box"] = (lo, up)
+    for typ in ("eq", "ineq"):
+        if typ in parts:
+            con = {"type": typ, "fun": lambda x, a=a, d=d: float(a @ np.asarray(x, float) - d)}
+            if with_jac:
+                con["jac"] = lambda x, a=a: a.copy()
+            kw["constraints"] = con
+            kkt["con"] = (typ, a.copy(), d)
+    return kw, (kkt or None)
+
+
+def _kkt_residual(x, g, kkt):
+    """max(infeasibility, distance of the gradient from the cone of active constraint normals) at x - dense numpy + NNLS."""
+    from scipy.optimize import nnls
+    n = len(x)
+    gx = np.asarray(g(x), float)
+    feas, cols, act = 0.0, [], []
+    eps = 1e-5
+    if "con" in kkt:
+        typ, a, d = kkt["con"]
+        cv = float(a @ x - d)
+        if typ == "eq":
+            feas = max(feas, abs(cv))
+            cols += [a, -a]
+            act.append("eq")
+        else:
+            feas = max(feas, -cv)
+            if cv <= eps * (1 + abs(d)):
+                cols.append(a)
+                act.append("ineq-active")
+            else:
+                act.append("ineq-inactive")
+    nb = 0
+    if "box" in kkt:
+        lo, up = kkt["box"]
+        feas = max(feas, float(np.max(lo - x)), float(np.max(x - up)))
+        for i in range(n):
+            e = np.zeros(n)
+            e[i] = 1.0
+            if x[i] - lo <= eps:
+                cols.append(e)
+                nb += 1
+            if up - x[i] <= eps:
+                cols.append(-e)
+                nb += 1
+        act.append("box-active=%d" % nb)
+    if cols:
+        stat = float(nnls(np.array(cols).T, gx)[1])
+    else:
+        stat = float(np.linalg.norm(gx))
+    return max(feas, stat), "+".join(act)
+
+
 def _eval_minimize(cell, res):
     import cuqi
     import scipy.optimize as opt
@@ -1887,8 +1992,13 @@ def _eval_minimize(cell, res):
     xf = _x0facet(x0type)
     method, which = cell["method"], cell["which"]
     grad = g if cell["grad"] else None
+    kwname = cell.get("kw")
+    mk = (lambda: _min_kwargs(kwname, n, k, cell["grad"])) if kwname else (lambda: ({}, None))
+    if kwname:
+        xf += ",kwargs=" + kwname
     try:
-        ref = opt.minimize(f, x0.copy() if x0type == "CUQIarray" else _as_rep(x0, x0type), jac=grad, method=method)
+        with _quiet():
+            ref = opt.minimize(f, x0.copy() if x0type == "CUQIarray" else _as_rep(x0, x0type), jac=grad, method=method, **mk()[0])
     except Exception as e:
         ref = None      # SciPy itself refuses this start representation (e.g. float32 with the compiled TNC / SLSQP kernels)
         res.outcomes.add("scipy-refuses:%s:%s" % (method, type(e).__name__))
@@ -1896,15 +2006,18 @@ def _eval_minimize(cell, res):
     has_nit = ref is not None and "nit" in ref
     facet = "method=%s" % method if (has_jac and has_nit) else "scipy-result-without-%s" % ("jac" if not has_jac else "nit")
     facet += xf
-    res.state("%s:%s:%s" % (which, method, x0type))
+    res.state("%s:%s:%s%s" % (which, method, x0type, (":" + kwname) if kwname else ""))
     res.transitions += 1
     x0arg = _as_rep(x0, x0type)
+    kwarg, kkt = mk()           # the wrapper gets its own keyword objects
+    guard = _Guard(**{kk: v for kk, v in kwarg.items() if kk == "bounds"})
     if ref is None:
         try:
-            if which == "minimize":
-                cuqi.solver.minimize(f, x0arg, gradfunc=grad, method=method).solve()
-            else:
-                cuqi.solver.maximize(lambda x: -f(x), x0arg, gradfunc=(lambda x: -g(x)) if cell["grad"] else None, method=method).solve()
+            with _quiet():
+                if which == "minimize":
+                    cuqi.solver.minimize(f, x0arg, gradfunc=grad, method=method, **kwarg).solve()
+                else:
+                    cuqi.solver.maximize(lambda x: -f(x), x0arg, gradfunc=(lambda x: -g(x)) if cell["grad"] else None, method=method, **kwarg).solve()
         except Exception:
             res.refused += 1
             res.nontrivial = False
@@ -1912,12 +2025,13 @@ def _eval_minimize(cell, res):
         res.fail("C16|%s|x|scipy-refuses%s" % (which, xf), "wrapper returned although SciPy refuses method=%r with this start" % (method,))
         return
     try:
-        if which == "minimize":
-            x, info = cuqi.solver.minimize(f, x0arg, gradfunc=grad, method=method).solve()
-        else:
-            nf = lambda x: -f(x)
-            ng = (lambda x: -g(x)) if cell["grad"] else None
-            x, info = cuqi.solver.maximize(nf, x0arg, gradfunc=ng, method=method).solve()
+        with _quiet():
+            if which == "minimize":
+                x, info = cuqi.solver.minimize(f, x0arg, gradfunc=grad, method=method, **kwarg).solve()
+            else:
+                nf = lambda x: -f(x)
+                ng = (lambda x: -g(x)) if cell["grad"] else None
+                x, info = cuqi.solver.maximize(nf, x0arg, gradfunc=ng, method=method, **kwarg).solve()
     except Exception as e:
         res.refused += 1
         res.outcomes.add("raises:%s" % type(e).__name__)
@@ -1928,6 +2042,19 @@ def _eval_minimize(cell, res):
     res.evaluations += 1
     if not _start_unchanged(x0arg, x0, x0type):
         res.fail("C16|%s|start-vector-altered|x0=%s" % (which, _rep_class(x0type)), "the caller's start vector was modified by solve()")
+    if kwname:
+        _flag_altered(res, which, guard, "kwargs=" + kwname)
+        if kkt is not None and bool(ref.success):
+            # independent of SciPy: the strictly convex objective has ONE KKT point under the linear constraint / box
+            res.evaluations += 1
+            r, act = _kkt_residual(np.asarray(x, float), g, kkt)
+            res.outcomes.add("kkt:%s:%s" % (kwname.replace(",tol", ""), act))
+            lim = (1e-4 if "tol" in kwname else 5e-3) * (1.0 + np.linalg.norm(g(np.zeros(n))))
+            if not r <= lim:
+                res.fail("C16|%s|kkt|kwargs=%s" % (which, kwname.replace(",tol", "")),
+                         "method=None, gradfunc=%s: returned x=%s is not the KKT point of the problem the keywords describe "
+                         "(residual of stationarity + feasibility %.3e > %.1e); scipy.optimize.minimize with the same arguments returns %s"
+                         % ("given" if cell["grad"] else "None", np.round(np.asarray(x, float), 6).tolist(), r, lim, np.round(ref.x, 6).tolist()))
     if cell["x0type"] == "CUQIarray":
         res.evaluations += 1
         if not isinstance(x, cuqi.array.CUQIarray) or x.geometry != x0arg.geometry:
